@@ -1,6 +1,7 @@
 """C05 - older format versions are upgraded faithfully and idempotently"""
 import json
 import os
+import copy
 import core
 import wire
 from suites import docs_legacy as DL, docs_corrupt as DCo, docs_composeinfo as DC, docs_treeinfo as DT, ops_images as OI
@@ -39,7 +40,7 @@ def check_upgrade(chk, c, r, suite, small):
 FAMILIES_00 = ["Red Hat Enterprise Linux", "Red Hat Enterprise Linux Server", "Subscription Asset Manager", "Subscription Asset Manager 2",
                "Red Hat Storage", "Red Hat Storage Software Appliance", "Red Hat Storage Server", "JBEAP", "JBEAP Tools", "Fedora",
                "Fedora Rawhide", "CentOS", "CentOS Linux", "EulerOS", "EulerOS V2", "Scientific Linux", "fedora", "My RHEL"]
-VERSIONS_00 = ["7.0", "22", "6.5-Beta", "RHEL-6.5", "7.2_20150101", "Rawhide", "5.11-1.2-x", "20_Alpha-TC1", "3.0.1"]
+VERSIONS_00 = ["7.0", "22", "6.5-Beta", "RHEL-6.5", "7.2_20150101", "Rawhide", "5.11-1.2-x", "20_Alpha-TC1", "3.0.1", "6", "5.3", "4.8", "3"]
 
 
 def run(chk):
@@ -77,8 +78,16 @@ def run(chk):
             flat = max([depth(t) for t in tops.values()] or [0]) <= 2 and not any("-" in t[0]["uid"] for t in tops.values())
             older = ["0.3"] if cont.get("decoupled") else ["0.3", "0.2", "0.1"]        # before 0.3 the facts exist only inside the id
             for ver in ["1.1", "1.0"] + (older if flat else []):
-                cases.append({"fmt": "composeinfo", "text": json.dumps(DL.down_composeinfo(d, ver)), "doc": DL.down_composeinfo(d, ver),
-                              "version": ver, "desc": cont["content"]})
+                doc, desc = DL.down_composeinfo(d, ver), cont["content"]
+                cid = doc["payload"]["compose"]["id"]
+                if rng.random() < 0.4 and (".n." in cid or ".t." in cid):
+                    # the documented long spellings of the type suffix; the id is carried over verbatim
+                    cid = cid.replace(".n.", ".nightly.").replace(".t.", ".test.")
+                    doc = copy.deepcopy(doc)
+                    doc["payload"]["compose"]["id"] = cid
+                    desc = copy.deepcopy(desc)
+                    desc[0]["id"] = cid
+                cases.append({"fmt": "composeinfo", "text": json.dumps(doc), "doc": doc, "version": ver, "desc": desc})
     ir = core.ImplRunner("docs_legacy", fn="impl_upgrade", per_case_timeout=20.0)
     try:
         ires = ir.run([{"fmt": c["fmt"], "text": c["text"]} for c in cases])
@@ -144,13 +153,21 @@ def run(chk):
             g = {k: v for k, v in t["general"].items() if not k.startswith(";")}
             if "-" not in g.get("variant", ""):
                 other.append({"fmt": "treeinfo", "text": DCo.render_ini({"general": g}), "pre_productmd": True})
-                # the family / version heuristics of the pre-productmd reader (reference: Model/TreeInfo00.v)
-                g2 = dict(g)
-                g2["family"] = rng.choice(FAMILIES_00)
-                g2["version"] = rng.choice(VERSIONS_00)
-                g2["name"] = "%s %s" % (g2["family"], g2["version"])
-                other.append({"fmt": "treeinfo", "text": DCo.render_ini({"general": g2}), "pre_productmd": True,
-                              "family": g2["family"], "version00": g2["version"]})
+                for _rep in range(5):
+                    # the family / version heuristics of the pre-productmd reader (reference: Model/TreeInfo00.v)
+                    g2 = dict(g)
+                    g2["family"] = rng.choice(FAMILIES_00 + ["Red Hat Enterprise Linux", "Red Hat Enterprise Linux Server"] * 3)
+                    g2["version"] = rng.choice(VERSIONS_00)
+                    g2["name"] = "%s %s" % (g2["family"], g2["version"])
+                    for key, pool in (("packagedir", ["Packages", ".", "Server", "RedHat/RPMS/", "", None]),
+                                      ("repository", [".", "Server/repodata", "repo/", "Server", None])):
+                        val = rng.choice(pool + [g2.get(key)])
+                        if val is None:
+                            g2.pop(key, None)
+                        else:
+                            g2[key] = val
+                    other.append({"fmt": "treeinfo", "text": DCo.render_ini({"general": g2}), "pre_productmd": True,
+                                  "family": g2["family"], "version00": g2["version"], "general": g2})
     # 4. every shipped fixture
     fx = DL.fixtures()
     allc = other + fx
@@ -188,6 +205,24 @@ def run(chk):
             fdis += 1
             chk.violation("pre-productmd tree, family %r version %r: upgraded to name/short/version %r, documented mapping gives %r"
                           % (c["family"], c["version00"], got, m), {"text": c["text"]}, "docs_legacy:release_00")
+    # ... and the packages / repository heuristics of the same reader, given what the release heuristics produced
+    plines, pidx = [], []
+    for (i, c), m in zip(fl, fm):
+        if ores[i][0] == "ok" and isinstance(m, list) and len(m) == 3:
+            g2 = c["general"]
+            plines.append(wire.encode_line("paths_00", [m[1], m[2], g2["variant"], g2["arch"], g2.get("repository"),
+                                                         g2.get("packages", g2.get("packagedir", g2.get("packagedirs")))]))
+            pidx.append(i)
+    pm = core.run_model(plines)
+    for i, m in zip(pidx, pm):
+        c, r = allc[i], ores[i]
+        vp = r[3].get("variants", {}).get(c["general"]["variant"], {}).get("paths", {})
+        got = [vp.get(k) for k in ("packages", "repository", "source_packages", "source_repository")]
+        if got != m:
+            fdis += 1
+            chk.violation("pre-productmd tree %r: packages/repository/source_packages/source_repository upgraded to %r, documented "
+                          "heuristics give %r" % ({k: c["general"].get(k) for k in ("family", "version", "arch", "variant", "packagedir", "repository")}, got, m),
+                          {"text": c["text"]}, "docs_legacy:paths_00")
     chk.obligation("suite:docs_legacy:release_00", fdis == 0, "" if fdis == 0 else "%d disagreements" % fdis)
     chk.record_suite("docs_legacy:release_00", {"cases": len(fl), "disagreements": fdis, "families": FAMILIES_00, "versions": VERSIONS_00})
     kinds = {}
